@@ -29,6 +29,7 @@ struct snapraid_task* (*io_parity_read)(struct snapraid_io* io, unsigned* levcur
 void (*io_parity_write)(struct snapraid_io* io, unsigned* levcur, unsigned* waiting_map, unsigned* waiting_mac) = 0;
 void (*io_write_preset)(struct snapraid_io* io, block_off_t blockcur, int skip) = 0;
 void (*io_write_next)(struct snapraid_io* io, block_off_t blockcur, int skip, int* writer_error) = 0;
+void (*io_flush)(struct snapraid_io* io) = 0;
 void (*io_refresh)(struct snapraid_io* io) = 0;
 
 
@@ -188,6 +189,12 @@ static void io_write_next_mono(struct snapraid_io* io, block_off_t blockcur, int
 		writer_error[i] = io->writer_error[i];
 		io->writer_error[i] = 0;
 	}
+}
+
+static void io_flush_mono(struct snapraid_io* io)
+{
+	/* nothing to do, the writes are always completed by io_parity_write() */
+	(void)io;
 }
 
 static void io_refresh_mono(struct snapraid_io* io)
@@ -381,6 +388,9 @@ static struct snapraid_task* io_writer_step(struct snapraid_worker* worker, int 
 			worker->index = next_index;
 			task = &worker->task_map[worker->index];
 
+			/* we have something to do */
+			worker->idle = 0;
+
 			/* if the just completed task is at this index */
 			if (done_index == waiting_index) {
 				/* notify the IO that a new write is complete */
@@ -391,6 +401,14 @@ static struct snapraid_task* io_writer_step(struct snapraid_worker* worker, int 
 
 			/* return the new task */
 			return task;
+		}
+
+		/* all the scheduled tasks are completed */
+		if (!worker->idle) {
+			worker->idle = 1;
+
+			/* notify the IO that may be waiting in io_flush() */
+			thread_cond_signal(&io->write_done);
 		}
 
 		/* check if the worker has to exit */
@@ -490,6 +508,26 @@ static void io_write_next_thread(struct snapraid_io* io, block_off_t blockcur, i
 
 	/* signal all the workers that there is a new pending task */
 	thread_cond_broadcast_and_unlock(&io->write_sched, &io->io_mutex);
+}
+
+static void io_flush_thread(struct snapraid_io* io)
+{
+	unsigned i;
+
+	/* the synchronization is protected by the io mutex */
+	thread_mutex_lock(&io->io_mutex);
+
+	/* wait for all the writers to complete all the scheduled tasks */
+	for (i = 0; i < io->writer_max; ++i) {
+		struct snapraid_worker* worker = &io->writer_map[i];
+
+		/* the worker is idle only if it has no task in progress */
+		/* and no other task in queue */
+		while (!worker->idle || (worker->index + 1) % io->io_max != io->writer_index)
+			thread_cond_wait(&io->write_done, &io->io_mutex);
+	}
+
+	thread_mutex_unlock(&io->io_mutex);
 }
 
 static void io_refresh_thread(struct snapraid_io* io)
@@ -828,6 +866,7 @@ static void io_start_thread(struct snapraid_io* io,
 		struct snapraid_worker* worker = &io->writer_map[i];
 
 		worker->index = io->io_max - 1;
+		worker->idle = 0;
 
 		thread_create(&worker->thread, io_writer_thread, worker);
 	}
@@ -991,6 +1030,7 @@ void io_init(struct snapraid_io* io, struct snapraid_state* state,
 		io_read_next = io_read_next_thread;
 		io_write_preset = io_write_preset_thread;
 		io_write_next = io_write_next_thread;
+		io_flush = io_flush_thread;
 		io_refresh = io_refresh_thread;
 		io_data_read = io_data_read_thread;
 		io_parity_read = io_parity_read_thread;
@@ -1009,6 +1049,7 @@ void io_init(struct snapraid_io* io, struct snapraid_state* state,
 		io_read_next = io_read_next_mono;
 		io_write_preset = io_write_preset_mono;
 		io_write_next = io_write_next_mono;
+		io_flush = io_flush_mono;
 		io_refresh = io_refresh_mono;
 		io_data_read = io_data_read_mono;
 		io_parity_read = io_parity_read_mono;
